@@ -56,12 +56,29 @@ pub broadcast proof fn lemma_swrote_trans_b<O: BinaryOutput>(a: &SerializationCo
     lemma_swrote_trans(a, b, c, x, y, t1, t2);
 }
 
+/// raw writes inside a case closure (no codec call): their frame facts make an `swrote`
+pub broadcast proof fn lemma_swrote_wrote_b<O: BinaryOutput>(pre: &SerializationContext<O>, post: &SerializationContext<O>, b: Seq<u8>)
+    requires
+        post.owf(),
+        post.olen() == pre.olen() + b.len(),
+        post.keeps() == pre.keeps(),
+        pre.keeps() ==> post.obytes() =~= pre.obytes() + b,
+        post.orest().lower =~~= pre.orest().lower,
+        post.orest().strs == pre.orest().strs,
+        post.orest().refs == pre.orest().refs,
+    ensures
+        #[trigger] swrote(pre, post, b, pre.state.strs()),
+{
+    lemma_swrote_wrote(pre, post, b);
+}
+
 pub broadcast proof fn lemma_swrote_facts_b<O: BinaryOutput>(a: &SerializationContext<O>, b: &SerializationContext<O>, x: Seq<u8>, t: Tbl)
     requires
         #[trigger] swrote(a, b, x, t),
     ensures
         b.owf(),
         b.state.strs() == t,
+        b.orest().lower == a.orest().lower,
 {
     lemma_swrote_facts(a, b, x, t);
 }
